@@ -317,6 +317,39 @@ def c096(ctx):
         ctx.check(R, f, "skip-bounded", ok, "the reader repositions only on the failing edge of (trued_up - offset) > HEADER_MAX_SIZE",
                   "the padding skip is no longer bounded by HEADER_MAX_SIZE: a damaged length byte makes the reader jump to the next block boundary "
                   "(or past EOF) and silently drop records", pt=pt)
+    # ... and true_up is the only place where the reader repositions: a second, inlined computation of the padding skip
+    # (e.g. `next_boundary(offset) - offset` after the length byte was consumed) disagrees with compute_true_up on a boundary
+    n_seek = 0
+    for g_ in sorted(ctx.prog.fns.values(), key=lambda x: x.key):
+        if g_.crate != "sst" or not g_.skey.startswith("sst::log::LogIterator::"):
+            continue
+        for pt in P.call_points(g_, r"std::io::Seek>::seek$|std::io::Seek::seek$|::seek_relative$|BufReader.*::seek_relative$|BufRead>?::consume$"):
+            n_seek += 1
+            ctx.check(R, g_, "only-true_up-repositions", g_.skey in ("sst::log::LogIterator::true_up", "sst::log::LogIterator::new", "sst::log::LogIterator::from_reader"),
+                      "%s repositions the log input" % P.short(g_.skey),
+                      "%s repositions the log input itself instead of going through LogIterator::true_up (the bounded, boundary-aware skip): its own "
+                      "arithmetic can jump a whole block when the position is already on a boundary" % g_.skey, pt=pt)
+    ctx.floor(R, "repositioning calls in LogIterator", n_seek, 1)
+    nh = ctx.fn(R, "sst::log::LogIterator::next_header")
+    if nh:
+        tu = ctx.calls(R, nh, r"sst::log::LogIterator::true_up$")
+        # the zero-length (padding) edge: a comparison of the header length byte with 0
+        zero_edges = []
+        for b in P.switch_blocks(nh):
+            for c_ in K.cond_sources(nh, b.idx):
+                if c_["k"] == "bin" and c_["op"] in ("Eq", "Ne"):
+                    ops = (c_["st"]["rv"]["a"], c_["st"]["rv"]["b"])
+                    if any(o.get("k") == "const" and o["c"].get("v") == 0 for o in ops):
+                        lab = "sw:1" if c_["op"] == "Eq" else "sw:0"
+                        zero_edges.append((b.idx, dict(b.succs).get(lab)))
+        ctx.floor(R, "next_header padding test", len(zero_edges), 1)
+        heads = [h for h in P.call_points(nh, r"Read>?::read_exact$|::read_exact$") if P.reach(nh, P.after(nh, h), [h])]
+        for (bb, tgt) in zero_edges:
+            if tgt is None:
+                continue
+            q = P.reach(nh, [(tgt, 0)], heads or P.return_points(nh), avoid=set(tu) | set(P.error_points(nh)))
+            ctx.check(R, nh, "padding-through-true_up", q is None and bool(tu), "a zero length byte is skipped through LogIterator::true_up",
+                      "the padding branch of next_header does not go through LogIterator::true_up", path=q)
     # the writer pads at most HEADER_MAX_SIZE bytes
     w = ctx.fn(R, "sst::log::LogBuilder::append_split")
     if w:
